@@ -12,7 +12,7 @@ import itertools
 import numpy as np
 from scipy.sparse import csr_array
 
-from vlib.core import Result, pmap, merge_results, run_hypothesis, quiet, digest
+from vlib.core import Result, pmap, merge_results, run_hypothesis, quiet, digest, SEED
 
 
 # ----------------------------------------------------------------------------------------------------------------------
@@ -480,6 +480,75 @@ def _judge_one_cut_and_merge(sq, Q, Q0, E, pairs, n, T, lower, upper):
     return msgs, info
 
 
+def judge_large_cam(case):
+    """The combined step on a long chain of cells (sizes around sqrt(2^31), where index arithmetic changes regime): energies
+    constant on blocks of `block` cells, a few blocks far above the upper limit. The expected index list is known in
+    closed form; the matrix is compared with the sparse lumping L^T M L (diagonal = minus the off-diagonal row sum)."""
+    from molgri.molecules.transitions import SQRA
+    from scipy.sparse import diags, csr_array as csr
+    n, blk, T = int(case["n"]), int(case["block"]), 300.0
+    rng = np.random.default_rng(int(case["rng"]))
+    i = np.arange(n - 1)
+    rows, cols = np.concatenate([i, i + 1]), np.concatenate([i + 1, i])
+    idt = np.dtype(case["index_dtype"])
+    ones = np.ones(2 * (n - 1))
+    dist = csr((ones, (rows.astype(idt), cols.astype(idt))), shape=(n, n))
+    block = np.arange(n) // blk
+    energies = (block % 7).astype(float)
+    n_blocks = int(block[-1]) + 1
+    high = np.unique(np.linspace(1, n_blocks - 2, 9).astype(int))
+    energies[np.isin(block, high)] += 100.0
+    off = csr((rng.uniform(0.5, 2.0, size=2 * (n - 1)), (rows.astype(idt), cols.astype(idt))), shape=(n, n))
+    M = csr(off - diags(np.asarray(off.sum(axis=1)).ravel(), format="csr"))
+    lower = 0.001 if case["lower"] else None
+    upper = 20.0 if case["upper"] else None
+    try:
+        with quiet():
+            sq = SQRA(energies=energies, volumes=np.ones(n), distances=dist, surfaces=dist.copy())
+            out, il = sq.cut_and_merge(M.copy(), T=T, lower_limit=lower, upper_limit=upper)
+    except Exception as e:
+        return [f"n={n}: cut_and_merge raised {type(e).__name__}: {e}"]
+    dropped = set(high.tolist()) if upper is not None else set()
+    if lower is not None:
+        groups = [list(range(blk * b, min(blk * b + blk, n))) for b in range(n_blocks) if b not in dropped]
+    else:
+        groups = [[c] for c in range(n) if int(block[c]) not in dropped]
+    if il is None:
+        return [f"n={n}: no index list although {n - len(groups)} rows must go"]
+    got = il_plain(il)
+    if got != groups:
+        k = next((k for k, (a, b) in enumerate(zip(got, groups)) if a != b), min(len(got), len(groups)))
+        return [f"n={n}: index list has {len(got)} groups, expected {len(groups)}; first difference at group {k}: "
+                f"{got[k] if k < len(got) else None} vs {groups[k] if k < len(groups) else None}"]
+    G = len(groups)
+    if out.shape != (G, G):
+        return [f"n={n}: matrix shape {out.shape} for {G} groups"]
+    member = np.concatenate([np.asarray(g) for g in groups])
+    gid = np.concatenate([np.full(len(g), k) for k, g in enumerate(groups)])
+    L = csr((np.ones(len(member)), (member, gid)), shape=(n, G))
+    want = csr(L.T @ M @ L).tolil()
+    want.setdiag(0)
+    want = want.tocsr()
+    want = csr(want - diags(np.asarray(want.sum(axis=1)).ravel(), format="csr"))
+    diff = abs(csr(out) - want)
+    scale = abs(want).max()
+    if diff.max() > 1e-9 * scale:
+        r, c = np.unravel_index(int(diff.tocoo().data.argmax()), (1, diff.nnz))[1], 0
+        co = diff.tocoo()
+        k = int(co.data.argmax())
+        return [f"n={n}: entry ({co.row[k]},{co.col[k]}) of the reduced matrix deviates from the lumping of the input by {co.data[k]:.3g}"]
+    return []
+
+
+def _large_cam_job(case):
+    res = Result()
+    msgs = judge_large_cam(case)
+    res.case(sample=case, nontrivial=True, key=case, classes=["cut_and_merge", "large_chain(>=46341 cells)" if case["n"] >= 46341 else "chain"])
+    if msgs:
+        res.violation(case, "; ".join(msgs))
+    return res
+
+
 def _cam_shard(arg):
     shard, n_examples = arg
     from hypothesis import given, strategies as st
@@ -538,6 +607,8 @@ def _cam_shard(arg):
 
 
 def replay(case):
+    if case.get("large_chain"):
+        return judge_large_cam(case)
     if "ops" in case:
         return run_history(case)[0]
     return judge_cut_and_merge(case)[0]
@@ -557,6 +628,13 @@ def run(tier):
     n_exhaustive = sum(r.evaluations for r in results)
     results += pmap(_machine_shard, [(s, machines // 16, steps) for s in range(16)])
     results += pmap(_cam_shard, [(100 + s, cam // 16) for s in range(16)])
+    chains = [{"large_chain": True, "n": n, "block": b, "rng": SEED * 100 + k, "lower": lo, "upper": up, "index_dtype": dt}
+              for k, (n, b, lo, up, dt) in enumerate([(600, 3, True, True, "int32"), (46341, 3, True, False, "int32"),
+                                                      (50001, 3, True, True, "int32"), (70001, 4, True, True, "int32"),
+                                                      (70001, 2, False, True, "int32"), (66000, 3, True, True, "int64")])]
+    if tier == "quick":
+        chains = chains[:4]
+    results += pmap(_large_cam_job, chains)
     res = merge_results(results)
     res.violations.sort(key=lambda v: len(str(v["case"])))
     rule = (f"(1) exhaustive: every history of 1..{depth} operations on n=2..{n_exh} cells, operation = any set partition "
@@ -564,7 +642,7 @@ def run(tier):
             f"merge rules with 1..3 join lists of 1..4 ids (repeats, overlaps, merged and deleted members), delete rules, "
             f"dense and csr in lock-step, up to {steps} steps; (3) SQRA.cut_and_merge on generated energies/adjacency with "
             f"all four limit combinations, limits placed between the occurring values, followed (40 %) by 1..3 further calls "
-            f"with other limits on the same SQRA object, each judged on its own. Non-trivial history = a merge after a "
+            f"with other limits on the same SQRA object, each judged on its own. (4) cut_and_merge on chains of 600 / 46 341 / 50 001 / 70 001 cells with block-constant energies (expected groups in closed form, matrix compared with the sparse lumping). Non-trivial history = a merge after a "
             f"delete or a merge naming an already merged cell (cut_and_merge: something merged or cut); distinct = distinct "
             f"(matrix, operation sequence).")
     return res, rule, {"extra": {"exhaustive_part_evaluations": n_exhaustive,
